@@ -420,6 +420,8 @@ func runC09(s *Sim) {
 		{"lowercase-scheme", "bearer " + valid, true}, {"Basic", "Basic " + valid, true},
 		{"expired", "Bearer " + sign(jwt.SigningMethodHS256, h.key, now.Add(-2*time.Second), "someone"), true},
 		{"other-key", "Bearer " + sign(jwt.SigningMethodHS256, otherKey, now.Add(time.Hour), "someone"), true},
+		{"empty-key", "Bearer " + sign(jwt.SigningMethodHS256, []byte{}, now.Add(time.Hour), "someone"), true},
+		{"zero-key", "Bearer " + sign(jwt.SigningMethodHS256, make([]byte, 20), now.Add(time.Hour), "someone"), true},
 		{"alg-none", "Bearer " + sign(jwt.SigningMethodNone, jwt.UnsafeAllowNoneSignatureType, now.Add(time.Hour), "someone"), true},
 		{"HS384-same-key", "Bearer " + sign(jwt.SigningMethodHS384, h.key, now.Add(time.Hour), "someone"), true},
 		{"HS512-same-key", "Bearer " + sign(jwt.SigningMethodHS512, h.key, now.Add(time.Hour), "someone"), true},
